@@ -167,11 +167,46 @@ func ruleC09(p *Prog, r *Res) {
 		nb++
 		r.Check(!res.Found, ruleB, "manager.Manager.importPcapJob: importJobs updated in completion", p.Pos(comp.Node()), "must-pass assignment to Manager.importJobs", "a completion path does not remove the processed files from the import queue")
 		// after the shrink every path passes the test on the queue length whose then-branch restarts import
+		// the restart: a go statement of importPcapJob in a branch (then or else) of an if whose condition — directly or
+		// through a boolean local defined from it — reads Manager.importJobs
+		cinfo := comp.Pkg.TypesInfo
+		readsQueue := func(e ast.Expr) bool {
+			hit := false
+			var visit func(n ast.Node, depth int)
+			visit = func(n ast.Node, depth int) {
+				ast.Inspect(n, func(y ast.Node) bool {
+					switch z := y.(type) {
+					case *ast.SelectorExpr:
+						if cinfo.Uses[z.Sel] == types.Object(qfld) {
+							hit = true
+						}
+					case *ast.Ident:
+						if v, ok := cinfo.Uses[z].(*types.Var); ok && !v.IsField() && depth < 2 {
+							if b, ok := v.Type().Underlying().(*types.Basic); ok && b.Kind() == types.Bool {
+								inspectShallow(comp.Body(), func(w ast.Node) bool {
+									if as, ok := w.(*ast.AssignStmt); ok && len(as.Lhs) == len(as.Rhs) {
+										for i, l := range as.Lhs {
+											if identObj(cinfo, l) == types.Object(v) {
+												visit(as.Rhs[i], depth+1)
+											}
+										}
+									}
+									return true
+								})
+							}
+						}
+					}
+					return !hit
+				})
+			}
+			visit(e, 0)
+			return hit
+		}
 		var restartIf *ast.IfStmt
 		inspectShallow(comp.Body(), func(x ast.Node) bool {
-			if ifs, ok := x.(*ast.IfStmt); ok && strings.Contains(types.ExprString(ifs.Cond), "importJobs") {
+			if ifs, ok := x.(*ast.IfStmt); ok && readsQueue(ifs.Cond) {
 				hasGo := false
-				inspectShallow(ifs.Body, func(y ast.Node) bool {
+				inspectShallow(ifs, func(y ast.Node) bool {
 					if g, ok := y.(*ast.GoStmt); ok {
 						if fn := p.Callee(comp.Pkg, g.Call); fn != nil && fn.Name() == "importPcapJob" {
 							hasGo = true
@@ -194,7 +229,17 @@ func ruleC09(p *Prog, r *Res) {
 			for _, pt := range pts {
 				starts = append(starts, After(pt))
 			}
-			res := cfl.ExitAvoiding(starts, func(n ast.Node) bool { return n == ast.Node(restartIf.Cond) })
+			// the test of the queue: a branching node that reads the queue (the condition itself, or — after the
+			// expansion of named booleans — the expression it stands for)
+			isQueueTest := func(n ast.Node) bool {
+				pt, ok := cfl.at[n]
+				if !ok || pt.I != len(pt.B.Nodes)-1 || len(pt.B.Succs) != 2 {
+					return false
+				}
+				e, ok := n.(ast.Expr)
+				return ok && readsQueue(e)
+			}
+			res := cfl.ExitAvoiding(starts, isQueueTest)
 			r.Check(!res.Found, ruleB, "manager.Manager.importPcapJob: restart when queue non-empty", p.Pos(restartIf), "every path after the queue update tests the queue and restarts import", "a path after the queue update skips the restart test: queued captures are never imported: "+cfl.traceString(res))
 		}
 	}
